@@ -12,6 +12,8 @@ import contextlib
 import io
 import threading
 
+from harness import spans  # noqa: F401  (installs the API-only tracer provider before bluesky is imported)
+
 from harness import devices as D
 from harness.rec import PlanErr, Recorder, exc_kind
 from harness.steploop import StepLoop
@@ -108,6 +110,7 @@ class Scenario:
         self.RE = RE
         RE.record_interruptions = bool(opts.get("record_interruptions", False))
         rec.attach(RE)
+        spans.SINK[0] = rec
         loop.is_run_step = lambda h: RE._task is not None and getattr(h._callback, "__self__", None) is RE._task
         loop.active = lambda: RE._task is not None and not RE._task.done()
         loop.hold_time = lambda: str(RE._state) == "paused"
